@@ -1,4 +1,5 @@
 import Driver.FtWire
+import Koreo.MockApi
 namespace Koreo.Driver.C18
 open MiniJson Koreo Koreo.Exact Koreo.FT Koreo.Wire Koreo.Driver.Ft
 
@@ -88,7 +89,9 @@ def ofResult : CaseResult → J
 /-- {"op":"run","inputs":opt,"resource":opt,"cases":[case…],"fn":[{"inputs":w,"resource":opt,"out":…,"eff":…}…]}
       → {"results":[…],"fatal":bool}
     {"op":"overlay","ov":w,"inputs":w,"base":w} → {"v":opt}
-    {"op":"inputs","base":opt,"overrides":opt} → {"v":w}      (`caseInputs`) -/
+    {"op":"inputs","base":opt,"overrides":opt} → {"v":w}      (`caseInputs`)
+    {"op":"mock","cur":opt,"calls":[{"c":"get"|"delete"|"write","body":w}…]}
+      → {"answers":[opt…],"materialized":opt,"apiCalled":b,"deleteCalled":b,"handed":opt}   (`Koreo.FT.Mock`) -/
 def handle (j : J) : Except String J := do
   match (← j.getStr "op") with
   | "run" =>
@@ -106,6 +109,18 @@ def handle (j : J) : Except String J := do
     let st : State := { inputs := ← optWire (j.getD "base"), resource := none }
     let c : Case JVal := { overrides := ← optWire (j.getD "overrides"), assertion := .delete false }
     pure (.obj [("v", ofJVal (caseInputs st c))])
+  | "mock" =>
+    let cur ← optWire (j.getD "cur")
+    let calls ← (← j.getArr "calls").mapM fun c => do
+      match (← c.getStr "c") with
+      | "get" => pure Mock.Call.get
+      | "delete" => pure Mock.Call.delete
+      | "write" => pure (Mock.Call.write (← toJVal (c.getD "body")))
+      | x => throw s!"bad call {x}"
+    let m := Mock.run (Mock.fresh cur) calls
+    pure (.obj [("answers", .arr ((Mock.answers (Mock.fresh cur) calls).map ofOptWire)),
+                ("materialized", ofOptWire m.materialized), ("apiCalled", .bool m.apiCalled),
+                ("deleteCalled", .bool m.deleteCalled), ("handed", ofOptWire (Mock.handedOn m cur))])
   | op => throw s!"bad op {op}"
 
 end Koreo.Driver.C18
